@@ -41,7 +41,7 @@ func (l *FeedLog) firstSince(from int) *Feed {
 func (l *FeedLog) maxEnd(from, to int) int {
 	m := 0
 	for _, f := range l.Feeds {
-		if f.Call >= from && f.Call <= to && f.Off+f.N > m {
+		if f.N > 0 && f.Call >= from && f.Call <= to && f.Off+f.N > m {
 			m = f.Off + f.N
 		}
 	}
@@ -75,6 +75,7 @@ type DirChecker struct {
 	SawKept    bool
 	LimitSkips int
 	SawEnd     bool
+	EndDelivered int // call of the first delivery carrying the End flag
 }
 
 func NewDirChecker(S []byte, log *FeedLog, created int) *DirChecker {
@@ -110,8 +111,9 @@ func (d *DirChecker) Deliver(cc CallCtx, skip int, start, end bool, saved int, a
 			return "skip-on-start", fmt.Sprintf("first delivery has Start and skip=%d", skip)
 		}
 	}
-	if end {
-		d.SawEnd = true // informational: neither property says what may follow an End flag, only what may follow completion
+	if end && !d.SawEnd {
+		d.EndDelivered = cc.Call
+		d.SawEnd = true //: neither property says what may follow an End flag, only what may follow completion
 	}
 	if !d.Started {
 		return
@@ -204,7 +206,12 @@ func (d *DirChecker) Final() (key, desc string) {
 	if d.EndCall < 0 {
 		return "direction-never-ended", "after FlushAll the direction was neither ended nor completed"
 	}
-	if m := d.Log.maxEnd(d.Created, d.EndCall); d.pos < m {
+	// the direction stops taking data when its End (FIN/RST) has been handed over, at the latest when the stream completes
+	closeCall := d.EndCall
+	if d.SawEnd && d.EndDelivered < closeCall {
+		closeCall = d.EndDelivered
+	}
+	if m := d.Log.maxEnd(d.Created, closeCall); d.pos < m {
 		return "fed-bytes-never-delivered", fmt.Sprintf("bytes up to stream offset %d were fed while the direction was open, delivery stopped at %d", m, d.pos)
 	}
 	return
